@@ -351,43 +351,57 @@ func isConstLike(e *wexpr) bool {
 }
 
 // editedOnlyInDeadRHS: every expression node that did not exist before the edit lies in the right operand of a
-// short-circuit operator whose left operand is a constant expression.
-func editedOnlyInDeadRHS(m *wmodule, before map[*wexpr]bool) bool {
-	found, outside := false, false
-	var walk func(e *wexpr, dead bool)
-	walk = func(e *wexpr, dead bool) {
+// short-circuit operator whose left operand decides the result at shader-creation time, so that naga never lowers the
+// operand.  Decided syntactically when the left operand is built from literals and constants only; otherwise (a left
+// operand such as `(K > K) && inp[0] != 0`, itself decided by short-circuit evaluation) decided against the real front
+// end: with the left operands of all guarding operators replaced by a run-time value, the edited program must be rejected.
+func editedOnlyInDeadRHS(m *wmodule, before map[*wexpr]bool, render func() string) bool {
+	found, outside, syntactic := false, false, true
+	var guards []*wexpr
+	var walk func(e *wexpr, gs []*wexpr)
+	walk = func(e *wexpr, gs []*wexpr) {
 		if e == nil {
 			return
 		}
 		if !before[e] {
 			found = true
-			if !dead {
+			if len(gs) == 0 {
 				outside = true
 			}
+			dead := false
+			for _, g := range gs {
+				if isConstLike(g.args[0]) {
+					dead = true
+				}
+			}
+			if !dead {
+				syntactic = false
+			}
+			guards = append(guards, gs...)
 			return // a new subtree: judged at its root
 		}
 		for i, a := range e.args {
-			d := dead
-			if e.k == "bin" && (e.op == "&&" || e.op == "||") && i == 1 && isConstLike(e.args[0]) {
-				d = true
+			g2 := gs
+			if e.k == "bin" && (e.op == "&&" || e.op == "||") && i == 1 {
+				g2 = append(append([]*wexpr{}, gs...), e)
 			}
-			walk(a, d)
+			walk(a, g2)
 		}
 	}
 	var ws func(l []*wstmt)
 	ws = func(l []*wstmt) {
 		for _, st := range l {
-			walk(st.e, false)
-			walk(st.brk, false)
+			walk(st.e, nil)
+			walk(st.brk, nil)
 			if st.lhs != nil {
 				for i := range st.lhs.args {
 					if i > 0 { // index expressions inside lvalues (as in exprSlots)
-						walk(st.lhs.args[i], false)
+						walk(st.lhs.args[i], nil)
 					}
 				}
 			}
 			if st.init != nil {
-				walk(st.init.e, false)
+				walk(st.init.e, nil)
 			}
 			ws(st.body)
 			ws(st.els)
@@ -400,7 +414,27 @@ func editedOnlyInDeadRHS(m *wmodule, before map[*wexpr]bool) bool {
 		ws(f.body)
 	}
 	ws(m.entry.body)
-	return found && !outside
+	if !found || outside {
+		return false
+	}
+	if syntactic {
+		return true
+	}
+	// empirical: make every guarding left operand a run-time value; the front end must now reject the program
+	saved := make([]*wexpr, len(guards))
+	for i, g := range guards {
+		saved[i] = g.args[0]
+	}
+	for _, g := range guards {
+		g.args[0] = &wexpr{k: "bin", ty: tBool, op: "==", args: []*wexpr{
+			{k: "idx", ty: tU32, args: []*wexpr{{k: "var", ty: tArr(0, tU32), name: "inp"}, {k: "lit", ty: tU32, bits: 0, konst: true}}},
+			{k: "lit", ty: tU32, bits: 4242, konst: true}}}
+	}
+	mod, _ := frontEnd(render())
+	for i := len(guards) - 1; i >= 0; i-- {
+		guards[i].args[0] = saved[i]
+	}
+	return mod == nil
 }
 
 func cmdC11(c *ctx) {
@@ -429,7 +463,9 @@ func cmdC11(c *ctx) {
 				continue
 			}
 			marker = mk
-			if editedOnlyInDeadRHS(m, before) {
+			if editedOnlyInDeadRHS(m, before, func() string {
+				return mustUse + m.wgsl() + "fn late_zz(a: u32, b: u32) -> u32 {\n  return a + b;\n}\n"
+			}) {
 				// the rule is broken only inside the right operand of && / || whose left operand is a constant expression
 				site = " site=short-circuit-rhs"
 				c.count("site:short-circuit-rhs")
